@@ -35,12 +35,18 @@ def post(ctx, rows, res, bindir):
 
 
 def run(ctx):
-    ctx.cov["rule"] = ("generated programs (definitions, operator expressions over 17 atoms incl. escaped strings/interpolation/brackets, command calls, indented blocks, "
+    ctx.cov["rule"] = ("75% generated programs, 25% corpus programs (the repository's examples/ and tests/should_ok/ files that parse, <= 4000 characters); blank-line and "
+                       "comment-line rewrites insert runs of 1-4 lines (comment lines indented like the following line, like the preceding line = the block opener, or in "
+                       "column 0) at EVERY line boundary incl. directly after a block opener (=, ->, =>, do:, do!:, `C.`) and between the statements of a block; "
+                       "generated programs (definitions, operator expressions over 17 atoms incl. escaped strings/interpolation/brackets, command calls, indented blocks, "
                        "lambdas with nested if/do blocks) x rewrite kind x an admissible offset taken from the real lexer's token positions (Newline offsets for "
                        "comment/spaces/blank/comment line, a space between two tokens for continuation and #[ ]#, a literal operand after an operator/=/,/bracket "
                        "for parentheses); non-trivial = program has a block, a lambda or an escape")
     ctx.assumptions = ["tree equality = equality of the printed tree (position-free); derived == reported separately"]
-    core.standard_check(ctx, harness_bin="c10", n_quick=5000, n_thorough=60000, nontrivial=nontrivial, pre=c08.regen_xid, post=post)
+    import os
+    corpus_dirs = [os.path.join(core.REPO, "examples"), os.path.join(core.REPO, "tests", "should_ok")]
+    core.standard_check(ctx, harness_bin="c10", n_quick=6000, n_thorough=60000, nontrivial=nontrivial, pre=c08.regen_xid, post=post,
+                        extra_gen_args=["--corpus"] + corpus_dirs)
 
 
 def replay(ctx, path):
